@@ -72,7 +72,7 @@ static void NM(configure)(struct jpeg_decompress_struct *d, struct dec *s)
   d->dct_method = s->dct == 0 ? JDCT_ISLOW : s->dct == 1 ? JDCT_IFAST : JDCT_FLOAT;
   if (s->quant) { d->quantize_colors = TRUE; d->two_pass_quantize = FALSE; d->dither_mode = JDITHER_NONE; d->desired_number_of_colors = 64; }
   if (s->ocs == 1 && d->num_components == 3) d->out_color_space = JCS_EXT_BGRA;
-  else if (s->ocs == 2 && d->num_components == 3 && BITS == 8) d->out_color_space = JCS_RGB565;
+  else if (s->ocs == 2 && d->num_components == 3 && BITS == 8 && !s->quant) { d->out_color_space = JCS_RGB565; d->dither_mode = JDITHER_NONE; }
   else if (s->ocs == 3 && d->num_components == 3) d->out_color_space = JCS_GRAYSCALE;
 }
 
@@ -120,11 +120,11 @@ static void NM(history)(struct enc *e, struct dec *s, struct full *f, long cx, l
 {
   struct jpeg_decompress_struct d; struct jpeg_error_mgr em;
   unsigned char *volatile buf = NULL; SAMP **volatile rows = NULL; int *volatile prov = NULL, *volatile provy = NULL;
-  volatile int nprov = 0;
+  volatile int nprov = 0; int *volatile clsv = NULL;
   char *volatile o = outbuf; int i;
   d.err = jpeg_std_error(&em); em.error_exit = my_exit; em.emit_message = my_emit;
   if (setjmp(jb)) {
-    jpeg_destroy_decompress(&d); free(buf); free(rows); free(prov); free(provy);
+    jpeg_destroy_decompress(&d); free(buf); free(rows); free(prov); free(provy); free(clsv);
     printf("%s err %d\n", outbuf, last_err); return;
   }
   outbuf[0] = 0;
@@ -157,18 +157,26 @@ static void NM(history)(struct enc *e, struct dec *s, struct full *f, long cx, l
       JC(&d, &xo, &wo);
       x0 = xo; w0 = wo;
       o += sprintf(o, " | crop %u %u ow=%u win", xo, wo, d.output_width);
-      if (wo != (JDIMENSION)W) {
+      if (cw != (long)W) {
         o += sprintf(o, " %u %u", d.master->first_iMCU_col, d.master->last_iMCU_col);
         for (i = 0; i < d.num_components; i++) o += sprintf(o, " %u %u", d.master->first_MCU_col[i], d.master->last_MCU_col[i]);
       }
-      if (d.do_fancy_upsampling) { ex0 = x0 > 0; ex1 = x0 + w0 < W; }
+      /* fancy upsampling: the first/last column of the region may differ; a region of <= 2 columns makes
+         jpeg_crop_scanline re-select the plain upsampler (both of its columns are first/last columns) */
+      if (d.do_fancy_upsampling && cw != (long)W) { ex0 = x0 > 0 || w0 <= 2; ex1 = x0 + w0 < W || w0 <= 2; }
     } else o += sprintf(o, " | crop -");
     {
       int rb = NM(rowbytes)(&d);
       int maxn = H + 8;
-      buf = (unsigned char *)malloc((size_t)(rb + 16) * maxn);
+      size_t stride = ((size_t)rb + 16 + 15) & ~(size_t)15;   /* 16-byte aligned rows */
+      int *cls = NULL;
+      buf = (unsigned char *)malloc(stride * maxn);
       rows = (SAMP **)malloc(sizeof(SAMP *) * maxn);
       prov = (int *)malloc(sizeof(int) * (maxn + 4)); provy = (int *)malloc(sizeof(int) * (maxn + 4));
+      /* class of a full-decode row = smallest row with the same pixels inside the compared window */
+      cls = (int *)malloc(sizeof(int) * (H + 1));
+      { int y, t; for (y = 0; y < H; y++) { cls[y] = y; for (t = 0; t < y; t++) if (cls[t] == t && NM(roweq)(f, f->pix + (size_t)f->rowb * y + (size_t)x0 * f->pxb, t, (int)x0, (int)w0, ex0, ex1)) { cls[y] = t; break; } } }
+      clsv = cls;
       o += sprintf(o, " | ops");
       char *p = ops;
       while (*p) {
@@ -179,14 +187,15 @@ static void NM(history)(struct enc *e, struct dec *s, struct full *f, long cx, l
           while (got < n && d.output_scanline < d.output_height) {
             JDIMENSION y0 = d.output_scanline, k; long want = n - got; int j;
             if (want > maxn) want = maxn;
-            for (j = 0; j < want; j++) rows[j] = (SAMP *)(buf + (size_t)(rb + 16) * j);
-            memset(buf, 0xA5, (size_t)(rb + 16) * want);
+            for (j = 0; j < want; j++) rows[j] = (SAMP *)(buf + stride * j);
+            memset(buf, 0xA5, stride * want);
             k = JR(&d, (SAMP **)rows, (JDIMENSION)want);
             o += sprintf(o, "%s%u", first ? "" : "+", k); first = 0;
             for (j = 0; j < (int)k; j++) {
               int y = (int)y0 + j, found = -1, t;
-              if (y < H && NM(roweq)(f, (unsigned char *)rows[j], y, (int)x0, (int)w0, ex0, ex1)) found = y;
-              else for (t = 0; t < H; t++) if (NM(roweq)(f, (unsigned char *)rows[j], t, (int)x0, (int)w0, ex0, ex1)) { found = t; break; }
+              if (y >= H) found = -1;   /* a row past the bottom: nothing to compare with */
+              else if (NM(roweq)(f, (unsigned char *)rows[j], y, (int)x0, (int)w0, ex0, ex1)) found = cls[y];
+              else for (t = 0; t < H; t++) if (cls[t] == t && NM(roweq)(f, (unsigned char *)rows[j], t, (int)x0, (int)w0, ex0, ex1)) { found = t; break; }
               if (nprov < maxn) { prov[nprov] = found; provy[nprov] = y; nprov++; }
             }
             got += k;
@@ -206,18 +215,20 @@ static void NM(history)(struct enc *e, struct dec *s, struct full *f, long cx, l
       for (i = 0; i < nprov && o - outbuf < OUTMAX - 2048; i++) o += sprintf(o, " %d", prov[i]);
       {
         int bad = 0;
-        for (i = 0; i < nprov; i++) if (prov[i] != provy[i]) {
+        for (i = 0; i < nprov; i++) if (provy[i] >= H || prov[i] != cls[provy[i]]) {
           if (!bad) o += sprintf(o, " | px bad");
           if (bad < 4) o += sprintf(o, " y=%d:is=%d", provy[i], prov[i]);
           bad++;
         }
         if (!bad) o += sprintf(o, " | px ok %d", nprov); else o += sprintf(o, " n=%d", bad);
+        o += sprintf(o, " | dup");
+        for (i = 0; i < H && o - outbuf < OUTMAX - 1024; i++) if (cls[i] != i) o += sprintf(o, " %d:%d", i, cls[i]);
       }
     }
     if (d.output_scanline < d.output_height) jpeg_abort_decompress(&d); else jpeg_finish_decompress(&d);
   }
   jpeg_destroy_decompress(&d);
-  free(buf); free(rows); free(prov); free(provy);
+  free(buf); free(rows); free(prov); free(provy); free(clsv);
   printf("%s\n", outbuf);
 }
 
